@@ -49,11 +49,11 @@ func runLogoutStream(c *Ctx, n int) {
 		}
 		prevSP = sp
 		isResp := r.Intn(2) == 0
-		rs := &ResponseSpec{ID: fmt.Sprintf("_l%d", r.Intn(1000000)), InResponseTo: "_q1", Version: "2.0", Issuer: sp2(idpIss), StatusCode: sp2(statusOK),
+		rs := &ResponseSpec{ID: freeXML(r, fmt.Sprintf("_l%d", r.Intn(1000000))), InResponseTo: freeXML(r, "_q1"), Version: "2.0", Issuer: sp2(idpIss), StatusCode: sp2(statusOK),
 			Style: styles[r.Intn(len(styles))], Kind: "LogoutResponse", Destination: pick(r, sloURL, sloURL, "")}
 		if !isResp {
 			rs.Kind = "LogoutRequest"
-			rs.NameID = sp2(pick(r, "alice@example.com", "bob", "a<b>&c"))
+			rs.NameID = sp2(freeXML(r, pick(r, "alice@example.com", "bob", "a<b>&c")))
 		}
 		// field faults (signed by the IdP as they are)
 		var faults []string
